@@ -2,6 +2,18 @@ import TD.C05.LemStrip
 /-! C05: primitive steps of the reader on an encoded file. -/
 namespace TD.C05
 
+/-- the reader was constructed with `pad_modulo = 0` (any `keepGoing`) -/
+class Pad0 (cfg : Cfg) : Prop where
+  h : cfg.padModulo = 0
+
+instance : Pad0 Cfg.plain := ⟨rfl⟩
+instance (kg nn : Bool) : Pad0 ⟨kg, 0, nn⟩ := ⟨rfl⟩
+
+theorem consumePadding_pad0 (cfg : Cfg) [hp : Pad0 cfg] (f : Bytes) (pos : Nat) : consumePadding cfg f pos = pos := by
+  unfold consumePadding; simp [hp.h]
+
+variable {cfg : Cfg} [Pad0 cfg]
+
 theorem rdBytes_of_drop {f d R : Bytes} {pos : Nat} (h : f.drop pos = d ++ R) : rdBytes f pos d.length = d := by
   unfold rdBytes; rw [h]; simp
 
@@ -84,11 +96,11 @@ theorem readU16_avail {f : Bytes} {pos : Nat} (h : pos + 2 ≤ f.length) : ∃ v
 
 theorem readTail_ok {f : Bytes} {s : Rd} (L : Layout) (first last : Bool)
     (hattr : s.prAttr = attrOf L first last) (hlen : L.prtLen ≤ f.length - s.pos) (heof : s.isEOF = false) :
-    readTail f s = .ok { s with mustReadHead := true, pos := s.pos + L.prtLen } := by
+    readTail cfg f s = .ok { s with mustReadHead := true, pos := s.pos + L.prtLen } := by
   obtain ⟨_, _, b9, b10, b12, b13, _⟩ := bitSet_attrOf L first last
   unfold readTail
   simp only [heof, Bool.false_eq_true, if_false, Rd.hasRecordNumber, Rd.hasFileNumber, Rd.hasChecksum, hattr,
-    b9, b10, b12, b13]
+    b9, b10, b12, b13, false_and, consumePadding_pad0]
   unfold Layout.prtLen at hlen ⊢
   cases hr : L.hasRec <;> cases hf : L.fileNum.isSome <;> cases hc : L.hasChk <;>
     simp only [hr, hf, hc, Bool.false_eq_true, if_false, if_true] at hlen ⊢
@@ -134,7 +146,7 @@ theorem tifRead1_ok {f R : Bytes} (L : Layout) (t : Tif) (st : ES) (ty next : Na
     (hm : TifMode' L t) (hon : L.tif ≠ .off) (hl : TifLink L t st)
     (h : f.drop st.pos = tifMarker L.tif ty st.back next ++ R)
     (hty : ty < 4294967296) (hbk : st.back < 4294967296) (hnx : next < 4294967296) :
-    tifRead1 f t st.pos = .ok { t with tifType := ty, tifBack := st.back, tifNext := next, previousTell := some st.pos }
+    tifRead1 cfg f t st.pos = .ok { t with tifType := ty, tifBack := st.back, tifNext := next, previousTell := some st.pos }
       (st.pos + 12) (some st.pos) := by
   obtain ⟨hl1, hl2⟩ := hl hon
   unfold tifRead1
@@ -154,7 +166,6 @@ theorem tifRead1_ok {f R : Bytes} (L : Layout) (t : Tif) (st : ES) (ty next : Na
   | none => simp [Tif.hasPrevious, hp] at h1
   | some x => rw [hl1 x hp]
 
-
 /-! ### PR header -/
 
 theorem ld0 (n : Nat) : ¬ (((4 + n : Nat) : Int) - 4 < 0) ∧ (((4 + n : Nat) : Int) - 4).toNat = n := by omega
@@ -167,7 +178,7 @@ theorem ld6 (n : Nat) : ¬ (((4 + n + 6 : Nat) : Int) - 4 - 2 - 2 - 2 < 0)
 
 theorem readHeadBody_ok {f R : Bytes} (L : Layout) (s : Rd) (st : ES) (first last : Bool) (c : Bytes)
     (h : f.drop s.pos = prBody L st first last c ++ R) (hlen : prLenOf L c < 65536) :
-    readHeadBody f s = .ok
+    readHeadBody cfg f s = .ok
       { s with prLen := prLenOf L c, pos := s.pos + 4, prAttr := attrOf L first last,
                startOfLr := if s.isLrStart then s.startPrPos else s.startOfLr,
                ldIndex := 0, ldLen := c.length, mustReadHead := false,
@@ -191,7 +202,7 @@ theorem readHeadBody_ok {f R : Bytes} (L : Layout) (s : Rd) (st : ES) (first las
     cases hr : L.hasRec <;> cases hf : L.fileNum.isSome <;> cases hc : L.hasChk <;>
     simp only [hr, hf, hc, Bool.false_eq_true, if_false, if_true, Nat.add_zero, Nat.zero_add, Nat.reduceAdd] at hpl b9 b10 b12 <;>
     simp only [e1, e2, b14, Bool.false_eq_true, if_false, if_true, Rd.hasRecordNumber, Rd.hasFileNumber,
-      Rd.hasChecksum, b9, b10, b12, b13, hls, htl, hpl] <;>
+      Rd.hasChecksum, b9, b10, b12, b13, hls, htl, hpl, false_and] <;>
     simp only [(ld0 c.length).1, (ld0 c.length).2, (ld2 c.length).1, (ld2 c.length).2, (ld4 c.length).1,
       (ld4 c.length).2, (ld6 c.length).1, (ld6 c.length).2, if_false] <;> rfl
 
@@ -200,14 +211,14 @@ theorem tifRead_pr {f R : Bytes} (L : Layout) (t : Tif) (st : ES) (c : Bytes)
     (hm : TifMode' L t) (hl : TifLink L t st)
     (h : f.drop st.pos = tifMarker L.tif 0 st.back (st.pos + 12 + prLenOf L c) ++ R)
     (hbk : st.back < 4294967296) (hnx : st.pos + 12 + prLenOf L c < 4294967296) :
-    ∃ t' r, tifRead f t st.pos = .ok t' (st.pos + L.tifLen) r ∧ r.getD st.pos = st.pos
+    ∃ t' r, tifRead cfg f t st.pos = .ok t' (st.pos + L.tifLen) r ∧ r.getD st.pos = st.pos
       ∧ TifMode' L t' ∧ TifLink L t' (st.next L c) := by
   by_cases hon : L.tif = .off
   · refine ⟨t, none, ?_, rfl, hm, fun h => absurd hon h⟩
     unfold tifRead
     have : t.hasTif = false := by rw [hm.1]; simp [hon]
     simp [this, Layout.tifLen, hon]
-  · have h1 := tifRead1_ok L t st 0 (st.pos + 12 + prLenOf L c) hm hon hl h (by omega) hbk hnx
+  · have h1 := tifRead1_ok (cfg := cfg) L t st 0 (st.pos + 12 + prLenOf L c) hm hon hl h (by omega) hbk hnx
     have hT : t.hasTif = true := by rw [hm.1]; simp [hon]
     have htl : L.tifLen = 12 := by unfold Layout.tifLen; cases hh : L.tif <;> simp_all
     refine ⟨{ t with tifType := 0, tifBack := st.back, tifNext := st.pos + 12 + prLenOf L c,
@@ -237,23 +248,23 @@ theorem readHead_ok {f R : Bytes} (L : Layout) (s : Rd) (st : ES) (first last : 
     (hm : TifMode' L s.tif) (hl : TifLink L s.tif st) (hpos : s.pos = st.pos)
     (h : f.drop s.pos = encPR L st first last c ++ R)
     (hlen : prLenOf L c < 65536) (hbk : st.back < 4294967296) (hnx : st.pos + 12 + prLenOf L c < 4294967296) :
-    ∃ s', readHead f s = .ok s' ∧ HeadPost L f s s' st first last c R := by
+    ∃ s', readHead cfg f s = .ok s' ∧ HeadPost L f s s' st first last c R := by
   unfold encPR at h
   rw [List.append_assoc, hpos] at h
-  obtain ⟨t', r, e1, e2, e3, e4⟩ := tifRead_pr L s.tif st c hm hl h hbk hnx
+  obtain ⟨t', r, e1, e2, e3, e4⟩ := tifRead_pr (cfg := cfg) L s.tif st c hm hl h hbk hnx
   have h2 := drop_add_of_drop h
   rw [tifMarker_length] at h2
   unfold readHead
   cases hs : s.hasSuccessor
   · simp only [Bool.false_eq_true, not_false_eq_true, if_true, hpos, e1]
-    have := readHeadBody_ok (f := f) (R := R) L
+    have := readHeadBody_ok (cfg := cfg) (f := f) (R := R) L
       { s with ldTell := 0, isLrStart := true, startPrPos := r.getD st.pos, tif := t', pos := st.pos + L.tifLen }
       st first last c h2 hlen
     obtain ⟨e5, e6⟩ := this
     refine ⟨_, e5, ?_⟩
     exact ⟨by simp [hpos], by simpa [Nat.add_assoc] using e6, rfl, rfl, rfl, rfl, rfl, by simp [e2, hpos, hs], e3, e4⟩
   · simp only [not_true_eq_false, if_false, hpos, e1]
-    have := readHeadBody_ok (f := f) (R := R) L
+    have := readHeadBody_ok (cfg := cfg) (f := f) (R := R) L
       { s with isLrStart := false, startPrPos := r.getD st.pos, tif := t', pos := st.pos + L.tifLen }
       st first last c h2 hlen
     obtain ⟨e5, e6⟩ := this
@@ -264,7 +275,7 @@ theorem readHead_ok {f R : Bytes} (L : Layout) (s : Rd) (st : ES) (first last : 
 /-! ### end of file -/
 
 theorem readHeadBody_eof {f : Bytes} (s : Rd) (h : f.drop s.pos = []) :
-    readHeadBody f s = .ok { s with isEOF := true } := by
+    readHeadBody cfg f s = .ok { s with isEOF := true } := by
   unfold readHeadBody readU16 rdBytes
   rw [h]
   simp
@@ -282,11 +293,11 @@ structure EofPost (L : Layout) (f : Bytes) (s s' : Rd) : Prop where
 theorem readHead_eof {f : Bytes} (L : Layout) (s : Rd) (st : ES)
     (hm : TifMode' L s.tif) (hl : TifLink L s.tif st) (hpos : s.pos = st.pos)
     (h : f.drop s.pos = eofMarkers L st) (hbk : st.back < 4294967296) (hnx : st.pos + 24 < 4294967296) :
-    ∃ s', readHead f s = .ok s' ∧ EofPost L f s s' := by
+    ∃ s', readHead cfg f s = .ok s' ∧ EofPost L f s s' := by
   by_cases hon : L.tif = .off
   · have hT : s.tif.hasTif = false := by rw [hm.1]; simp [hon]
     have h0 : f.drop s.pos = [] := by rw [h]; simp [eofMarkers, tifMarker, hon]
-    have e1 : ∀ p, tifRead f s.tif p = .ok s.tif p none := by
+    have e1 : ∀ p, tifRead cfg f s.tif p = .ok s.tif p none := by
       intro p; unfold tifRead; simp [hT]
     unfold readHead
     cases hs : s.hasSuccessor
@@ -299,7 +310,7 @@ theorem readHead_eof {f : Bytes} (L : Layout) (s : Rd) (st : ES)
   · have hT : s.tif.hasTif = true := by rw [hm.1]; simp [hon]
     rw [hpos] at h
     unfold eofMarkers at h
-    have h1 := tifRead1_ok L s.tif st 1 (st.pos + 12) hm hon hl h (by omega) hbk (by omega)
+    have h1 := tifRead1_ok (cfg := cfg) L s.tif st 1 (st.pos + 12) hm hon hl h (by omega) hbk (by omega)
     have h2 := drop_add_of_drop h
     rw [tifMarker_len12 L hon] at h2
     -- the duplicate marker
@@ -312,14 +323,14 @@ theorem readHead_eof {f : Bytes} (L : Layout) (s : Rd) (st : ES)
     have h2' : f.drop (⟨st.pos + 12, st.pos, 0⟩ : ES).pos
         = tifMarker L.tif 1 (⟨st.pos + 12, st.pos, 0⟩ : ES).back (st.pos + 24) ++ [] := by
       simpa using h2
-    have h3 := tifRead1_ok L _ ⟨st.pos + 12, st.pos, 0⟩ 1 (st.pos + 24) hm1 hon hl1 h2' (by omega)
+    have h3 := tifRead1_ok (cfg := cfg) L _ ⟨st.pos + 12, st.pos, 0⟩ 1 (st.pos + 24) hm1 hon hl1 h2' (by omega)
       (by simp only []; omega) (by omega)
     have h4 := drop_add_of_drop h2'
     rw [tifMarker_len12 L hon] at h4
     simp only [] at h3 h4
-    have e1 : ∃ t2, tifRead f s.tif st.pos = .ok t2 (st.pos + 12 + 12) (some st.pos) ∧ TifMode' L t2
+    have e1 : ∃ t2, tifRead cfg f s.tif st.pos = .ok t2 (st.pos + 12 + 12) (some st.pos) ∧ TifMode' L t2
         ∧ t2.tifNext = st.pos + 12 + 12 := by
-      have e : tifRead f s.tif st.pos = .ok (⟨s.tif.hasTif, s.tif.isReversed, 1, st.pos, st.pos + 24, some (st.pos + 12)⟩ : Tif)
+      have e : tifRead cfg f s.tif st.pos = .ok (⟨s.tif.hasTif, s.tif.isReversed, 1, st.pos, st.pos + 24, some (st.pos + 12)⟩ : Tif)
           (st.pos + 12 + 12) (some st.pos) := by
         unfold tifRead
         rw [if_pos hT, h1]
@@ -340,11 +351,11 @@ theorem readHead_eof {f : Bytes} (L : Layout) (s : Rd) (st : ES)
 /-- `_readHead` once more when the stream already stands at the end of the file -/
 theorem readHead_atEnd {f : Bytes} (L : Layout) (s : Rd) (hm : TifMode' L s.tif) (h : f.drop s.pos = [])
     (htn : L.tif ≠ .off → s.tif.tifNext = s.pos) :
-    ∃ s', readHead f s = .ok s' ∧ s'.isEOF = true ∧ s'.startOfLr = s.startOfLr ∧ TifMode' L s'.tif
+    ∃ s', readHead cfg f s = .ok s' ∧ s'.isEOF = true ∧ s'.startOfLr = s.startOfLr ∧ TifMode' L s'.tif
       ∧ f.drop s'.pos = [] ∧ (L.tif ≠ .off → s'.tif.tifNext = s'.pos) := by
   by_cases hon : L.tif = .off
   · have hT : s.tif.hasTif = false := by rw [hm.1]; simp [hon]
-    have e1 : ∀ p, tifRead f s.tif p = .ok s.tif p none := by
+    have e1 : ∀ p, tifRead cfg f s.tif p = .ok s.tif p none := by
       intro p; unfold tifRead; simp [hT]
     unfold readHead
     cases hs : s.hasSuccessor
@@ -355,11 +366,12 @@ theorem readHead_atEnd {f : Bytes} (L : Layout) (s : Rd) (hm : TifMode' L s.tif)
       rw [readHeadBody_eof _ (by simpa using h)]
       exact ⟨_, rfl, rfl, rfl, hm, h, fun hh => absurd hon hh⟩
   · have hT : s.tif.hasTif = true := by rw [hm.1]; simp [hon]
-    have e1 : tifRead f s.tif s.pos = .rawEof s.tif s.pos := by
+    have e1 : tifRead cfg f s.tif s.pos = .rawEof s.tif s.pos := by
       unfold tifRead tifRead1
       simp only [hT, if_true]
       have c1 : ¬ (s.tif.hasPrevious = true ∧ s.tif.tifNext ≠ s.pos) := fun ⟨_, h2⟩ => h2 (htn hon)
       rw [if_neg c1]
+      simp only []
       unfold rdBytes
       rw [h]
       simp [unpack3]
